@@ -110,11 +110,72 @@ pub struct End {
     rscript: Script,
     wscript: Script,
     shared: Rc<RefCell<Shared>>,
+    /// Write-behind mode (`wb=1`): bytes accepted by `poll_write` are staged here (like the
+    /// encrypt buffer of a noise socket or a buffered websocket stream) and become visible to the
+    /// peer only when a `poll_flush` (or `poll_close`) of this end returns `Ready`. Staged bytes
+    /// of an end that is dropped without a completed flush are lost.
+    write_behind: bool,
+    staged: Vec<u8>,
+    /// Answers of successive `poll_flush` / `poll_close` calls: `0` is `Poll::Pending` (after
+    /// arranging a wake-up: a correct caller polls again), anything else `Ready`; an exhausted
+    /// script answers `Ready`. `None`: the historical behaviour (a `0` at the head of the write
+    /// script makes the flush `Pending`).
+    fscript: Option<Script>,
 }
 
 impl End {
     fn tick(&self) {
         self.shared.borrow_mut().activity += 1;
+    }
+
+    /// Switch this end to write-behind mode.
+    pub fn set_write_behind(&mut self, on: bool) {
+        self.write_behind = on;
+    }
+
+    /// Give this end its own script of flush answers.
+    pub fn set_flush_script(&mut self, s: Script) {
+        self.fscript = Some(s);
+    }
+
+    /// Is the next flush answer of the script `Pending`? Consumes the answer.
+    fn flush_pending(&mut self, cx: &mut Context<'_>) -> bool {
+        let pending = match self.fscript.as_mut() {
+            Some(f) => {
+                let item = f.peek();
+                if item.is_some() {
+                    f.pos += 1;
+                }
+                item == Some(0)
+            }
+            None =>
+                if let Some(0) = self.wscript.peek() {
+                    self.wscript.pos += 1;
+                    true
+                } else {
+                    false
+                },
+        };
+        if pending {
+            self.tick();
+            cx.waker().wake_by_ref();
+        }
+        pending
+    }
+
+    /// The inner flush completed: everything staged is on the wire.
+    fn commit(&mut self) {
+        if self.staged.is_empty() {
+            return;
+        }
+        let staged = std::mem::take(&mut self.staged);
+        {
+            let mut tx = self.tx.borrow_mut();
+            if !tx.reader_gone {
+                tx.data.extend(staged.iter());
+            }
+        }
+        self.tick();
     }
 }
 
@@ -181,9 +242,11 @@ impl AsyncWrite for End {
             None => usize::MAX,
         };
         let n = limit.min(buf.len());
-        {
+        self.tx.borrow_mut().log.extend_from_slice(&buf[..n]);
+        if self.write_behind {
+            self.staged.extend_from_slice(&buf[..n]);
+        } else {
             let mut tx = self.tx.borrow_mut();
-            tx.log.extend_from_slice(&buf[..n]);
             if !tx.reader_gone {
                 tx.data.extend(&buf[..n]);
             }
@@ -192,16 +255,23 @@ impl AsyncWrite for End {
         Poll::Ready(Ok(n))
     }
 
-    fn poll_flush(mut self: Pin<&mut Self>, _cx: &mut Context<'_>) -> Poll<io::Result<()>> {
-        if let Some(0) = self.wscript.peek() {
-            self.wscript.pos += 1;
-            self.tick();
+    fn poll_flush(mut self: Pin<&mut Self>, cx: &mut Context<'_>) -> Poll<io::Result<()>> {
+        if self.flush_pending(cx) {
             return Poll::Pending;
         }
+        self.commit();
         Poll::Ready(Ok(()))
     }
 
-    fn poll_close(self: Pin<&mut Self>, _cx: &mut Context<'_>) -> Poll<io::Result<()>> {
+    fn poll_close(mut self: Pin<&mut Self>, cx: &mut Context<'_>) -> Poll<io::Result<()>> {
+        // closing implies flushing what is staged (as the closing of an encrypted or buffered
+        // stream does); without staged bytes the close completes at once, as it always did
+        if !self.staged.is_empty() {
+            if self.flush_pending(cx) {
+                return Poll::Pending;
+            }
+            self.commit();
+        }
         self.tx.borrow_mut().closed = true;
         self.tick();
         Poll::Ready(Ok(()))
@@ -283,6 +353,33 @@ thread_local! {
     static VECTORED: std::cell::Cell<bool> = const { std::cell::Cell::new(false) };
 }
 
+/// How the test application of one side orders its reads and writes (`dapp=`, `lapp=`).
+#[derive(Clone, Copy, PartialEq, Eq)]
+enum AppMode {
+    /// write the payload, flush, complete the negotiation, close, read to the end (the default)
+    WriteFirst,
+    /// as `WriteFirst`, but the peer's payload is awaited (`read_exact`) BEFORE closing: the
+    /// payload has to travel on the strength of the flush alone
+    WriteReadClose,
+    /// request/response listener: read the peer's payload first, then write, flush, close
+    ReadFirst,
+}
+
+fn parse_app(s: Option<&&str>) -> AppMode {
+    match s.copied() {
+        Some("wrx") => AppMode::WriteReadClose,
+        Some("rw") => AppMode::ReadFirst,
+        _ => AppMode::WriteFirst,
+    }
+}
+
+thread_local! {
+    /// Set by `run_pair`: application mode of the dialer / listener side and the length of the
+    /// payload each of them is going to receive.
+    static APP: std::cell::Cell<[(AppMode, usize); 2]> =
+        const { std::cell::Cell::new([(AppMode::WriteFirst, 0); 2]) };
+}
+
 pub type TaskOut = (String, Vec<u8>);
 pub type Task = Pin<Box<dyn Future<Output = TaskOut>>>;
 
@@ -292,7 +389,16 @@ async fn after<R: AsyncRead + AsyncWrite + Unpin>(
     name: Vec<u8>,
     mut io: super::Negotiated<R>,
     pay: Vec<u8>,
+    (mode, expect): (AppMode, usize),
 ) -> TaskOut {
+    let mut buf = Vec::new();
+    if mode == AppMode::ReadFirst {
+        // the request arrives before anything is written (or flushed) by the application
+        buf.resize(expect, 0);
+        if let Err(e) = io.read_exact(&mut buf).await {
+            return (format!("err:app-read:{}", io_kind(e.kind())), Vec::new());
+        }
+    }
     if VECTORED.with(|v| v.get()) {
         // same bytes through `poll_write_vectored` (one slice holding the rest of the payload, so
         // the carrier sees the same sequence of writes as with `write_all`)
@@ -315,10 +421,16 @@ async fn after<R: AsyncRead + AsyncWrite + Unpin>(
         Ok(io) => io,
         Err(e) => return (neg_err(&e), Vec::new()),
     };
+    if mode == AppMode::WriteReadClose {
+        // the peer's payload arrives while both write sides are still open
+        buf.resize(expect, 0);
+        if let Err(e) = io.read_exact(&mut buf).await {
+            return (format!("err:app-read:{}", io_kind(e.kind())), Vec::new());
+        }
+    }
     if let Err(e) = io.close().await {
         return (format!("err:app-close:{}", io_kind(e.kind())), Vec::new());
     }
-    let mut buf = Vec::new();
     if let Err(e) = io.read_to_end(&mut buf).await {
         return (format!("err:app-read:{}", io_kind(e.kind())), buf);
     }
@@ -326,19 +438,21 @@ async fn after<R: AsyncRead + AsyncWrite + Unpin>(
 }
 
 fn dial_task(io: End, protos: Vec<Vec<u8>>, version: Version, pay: Vec<u8>) -> Task {
+    let app = APP.with(|a| a.get())[0];
     Box::pin(async move {
         match dialer_select_proto(io, protos, version).await {
             Err(e) => (neg_err(&e), Vec::new()),
-            Ok((name, io)) => after(name, io, pay).await,
+            Ok((name, io)) => after(name, io, pay, app).await,
         }
     })
 }
 
 fn listen_task(io: End, protos: Vec<Vec<u8>>, pay: Vec<u8>) -> Task {
+    let app = APP.with(|a| a.get())[1];
     Box::pin(async move {
         match listener_select_proto(io, protos).await {
             Err(e) => (neg_err(&e), Vec::new()),
-            Ok((name, io)) => after(name, io, pay).await,
+            Ok((name, io)) => after(name, io, pay, app).await,
         }
     })
 }
@@ -362,11 +476,31 @@ pub fn run_pair(
     dialer: impl FnOnce(End) -> Task,
     listener: impl FnOnce(End) -> Task,
 ) -> String {
-    let (ed, el, dl, ld, shared) = MssBox::duplex(
+    let (mut ed, mut el, dl, ld, shared) = MssBox::duplex(
         (script(a.get("dr")), script(a.get("dw"))),
         (script(a.get("lr")), script(a.get("lw"))),
     );
+    // write-behind carrier per direction (`dwb=1`: what the dialer writes is staged until its
+    // flush completes) and flush answers per end (`df`, `lf`)
+    ed.set_write_behind(a.get("dwb") == Some(&"1"));
+    el.set_write_behind(a.get("lwb") == Some(&"1"));
+    if a.contains_key("df") {
+        ed.set_flush_script(script(a.get("df")));
+    }
+    if a.contains_key("lf") {
+        el.set_flush_script(script(a.get("lf")));
+    }
+    // application modes: the dialer may await the listener's payload before closing (`dapp=wrx`),
+    // the listener may do the same (`lapp=wrx`) or read the request first (`lapp=rw`); both sides
+    // reading first would wait for each other, so the dialer never does
+    let plen = |k: &str| a.get(k).map_or(0, |h| unhx(h).len());
+    let dapp = match parse_app(a.get("dapp")) {
+        AppMode::ReadFirst => AppMode::WriteFirst,
+        m => m,
+    };
+    APP.with(|x| x.set([(dapp, plen("lpay")), (parse_app(a.get("lapp")), plen("dpay"))]));
     let tasks = vec![dialer(ed), listener(el)];
+    APP.with(|x| x.set([(AppMode::WriteFirst, 0); 2]));
     VECTORED.with(|v| v.set(a.get("vec") == Some(&"1")));
     let out = run(tasks, a.get("order").copied().unwrap_or("dl"), &shared);
     let show = |o: &Option<TaskOut>| match o {
@@ -481,6 +615,97 @@ fn show_listen(r: &crate::Result<ListenerSelectResult>) -> String {
 
 pub struct MssBox {
     dialer: Option<WebRtcDialerState>,
+}
+
+/// `sink wb=0|1 w=<write script> f=<flush script> ops=<op>,<op>,…`: the real `LengthDelimited`
+/// (`Sink<Bytes>`, and after `r` the `LengthDelimitedReader` made from it) over one end of the
+/// scripted carrier, polled by hand, one poll per operation:
+///
+/// * `s:<hex>` — `poll_ready` + `start_send(frame)`: `ok`, `busy` (`poll_ready` was `Pending`) or
+///   `err:<kind>`;
+/// * `p` — one `poll_flush`: `P/<n>` (`Pending`) or `R/<n>` (`Ready(Ok)`), `n` = number of bytes
+///   visible to the peer afterwards;
+/// * `c` — one `poll_close`, same answers;
+/// * `r` — `into_reader()`: `ok`;
+/// * `w:<hex>` — one `LengthDelimitedReader::poll_write`: `W<k>/<n>` (`k` bytes accepted) or `P/<n>`.
+///
+/// The observation ends with the bytes visible to the peer and the bytes accepted by the carrier.
+fn sink_op(a: &std::collections::HashMap<&str, &str>) -> String {
+    use super::length_delimited::{LengthDelimited, LengthDelimitedReader};
+    use futures::Sink;
+
+    enum Io {
+        Sink(LengthDelimited<End>),
+        Reader(LengthDelimitedReader<End>),
+        Gone,
+    }
+
+    let (mut ours, theirs, out_dir, _in_dir, _shared) = MssBox::duplex(
+        (script(None), script(a.get("w"))),
+        (script(None), script(None)),
+    );
+    ours.set_write_behind(a.get("wb") == Some(&"1"));
+    ours.set_flush_script(script(a.get("f")));
+    let mut io = Io::Sink(LengthDelimited::new(ours));
+    let waker = noop_waker();
+    let mut cx = Context::from_waker(&waker);
+    let visible = || out_dir.borrow().data.len();
+    let mut obs = Vec::new();
+    let ops = a.get("ops").copied().unwrap_or("-");
+    for op in ops.split(',').filter(|o| !o.is_empty() && *o != "-") {
+        let poll_res = |r: Poll<io::Result<()>>, n: usize| match r {
+            Poll::Pending => format!("P/{n}"),
+            Poll::Ready(Ok(())) => format!("R/{n}"),
+            Poll::Ready(Err(e)) => format!("E:{}", io_kind(e.kind())),
+        };
+        let o = match (op.split_once(':'), &mut io) {
+            (Some(("s", h)), Io::Sink(sink)) => match Pin::new(&mut *sink).poll_ready(&mut cx) {
+                Poll::Pending => "busy".to_string(),
+                Poll::Ready(Err(e)) => format!("err:{}", io_kind(e.kind())),
+                Poll::Ready(Ok(())) => match Pin::new(&mut *sink).start_send(Bytes::from(unhx(h))) {
+                    Ok(()) => "ok".to_string(),
+                    Err(e) => format!("err:{}", io_kind(e.kind())),
+                },
+            },
+            (Some(("w", h)), Io::Reader(reader)) => {
+                match Pin::new(&mut *reader).poll_write(&mut cx, &unhx(h)) {
+                    Poll::Pending => format!("P/{}", visible()),
+                    Poll::Ready(Ok(k)) => format!("W{k}/{}", visible()),
+                    Poll::Ready(Err(e)) => format!("E:{}", io_kind(e.kind())),
+                }
+            }
+            (None, Io::Sink(sink)) if op == "p" => {
+                let r = Pin::new(&mut *sink).poll_flush(&mut cx);
+                poll_res(r, visible())
+            }
+            (None, Io::Sink(sink)) if op == "c" => {
+                let r = Pin::new(&mut *sink).poll_close(&mut cx);
+                poll_res(r, visible())
+            }
+            (None, Io::Reader(reader)) if op == "p" => {
+                let r = Pin::new(&mut *reader).poll_flush(&mut cx);
+                poll_res(r, visible())
+            }
+            (None, Io::Reader(reader)) if op == "c" => {
+                let r = Pin::new(&mut *reader).poll_close(&mut cx);
+                poll_res(r, visible())
+            }
+            (None, Io::Sink(_)) if op == "r" => {
+                let Io::Sink(sink) = std::mem::replace(&mut io, Io::Gone) else {
+                    unreachable!("matched above")
+                };
+                io = Io::Reader(sink.into_reader());
+                "ok".to_string()
+            }
+            _ => return "bad-op".into(),
+        };
+        obs.push(o);
+    }
+    let vis = hx(&out_dir.borrow().data.iter().copied().collect::<Vec<u8>>());
+    let acc = hx(&out_dir.borrow().log);
+    drop(io);
+    drop(theirs);
+    format!("{} vis={vis} acc={acc}", if obs.is_empty() { "-".to_string() } else { obs.join(",") })
 }
 
 /// `report protos=M;F;F,M,M;F neg=N`: install the protocols `M` with fallback names `F`, report an
@@ -621,6 +846,9 @@ impl MssBox {
             rscript: a.0,
             wscript: a.1,
             shared: shared.clone(),
+            write_behind: false,
+            staged: Vec::new(),
+            fscript: None,
         };
         let eb = End {
             rx: ab.clone(),
@@ -628,6 +856,9 @@ impl MssBox {
             rscript: b.0,
             wscript: b.1,
             shared: shared.clone(),
+            write_behind: false,
+            staged: Vec::new(),
+            fscript: None,
         };
         (ea, eb, ab, ba, shared)
     }
@@ -796,6 +1027,7 @@ impl VerifBox for MssBox {
                 let a = kv(rest);
                 report(a.get("protos").copied().unwrap_or("-"), a.get("neg").copied().unwrap_or("-"))
             }
+            ["sink", rest @ ..] => sink_op(&kv(rest)),
             ["negotiate", rest @ ..] => {
                 let a = kv(rest);
                 let version = parse_version(a.get("ver").copied().unwrap_or("v1"));
@@ -814,10 +1046,14 @@ impl VerifBox for MssBox {
                 let protos = list(a.get("protos").copied().unwrap_or("-"));
                 let pay = unhx(a.get("pay").copied().unwrap_or("-"));
                 let peer = unhx(a.get("peer").copied().unwrap_or("-"));
-                let (ours, theirs, out_dir, in_dir, shared) = Self::duplex(
+                let (mut ours, theirs, out_dir, in_dir, shared) = Self::duplex(
                     (script(a.get("r")), script(a.get("w"))),
                     (script(None), script(None)),
                 );
+                ours.set_write_behind(a.get("wb") == Some(&"1"));
+                if a.contains_key("f") {
+                    ours.set_flush_script(script(a.get("f")));
+                }
                 // the scripted peer has sent everything and closed its write side; it keeps
                 // its read side open, so everything we write is accepted
                 {
